@@ -282,6 +282,34 @@ func runBuild(s *buildScenario, r *rand.Rand) (string, cf.Sidecar) {
 			baseTerms = append(baseTerms, fmt.Sprintf("(%s, (%s, %s))", coqTpk(topicIndex(p.Topic), p.Partition), cf.Z(base), coqTime(s.LAT[k])))
 		}
 	}
+	// the set built and encoded a second time (a re-sent batch): must decode, and to the same records
+	if rs := res.Resend; mon == nil && rs.Done && nacc > 0 {
+		switch {
+		case rs.Panic != "":
+			fail("wire:resend-panic", "building/encoding the same set a second time panicked: "+rs.Panic)
+		case rs.EncodeErr != "":
+			fail("wire:resend-encode-error", "the same set does not encode a second time: "+rs.EncodeErr)
+		case rs.DecodeErr != "":
+			fail("wire:undecodable-request", "the broker cannot decode the request when the same set is sent a second time: "+rs.DecodeErr)
+		default:
+			sortParts(rs.Parts)
+			first := map[string]string{}
+			for _, p := range res.Parts {
+				if p.HasDecoded {
+					first[tpKey(p.Topic, p.Partition)] = coqRecords(p.Decoded)
+				}
+			}
+			if len(rs.Parts) != len(first) {
+				fail("wire:resend-differs", fmt.Sprintf("the re-sent request has %d partitions, the first had %d", len(rs.Parts), len(first)))
+			}
+			for _, p := range rs.Parts {
+				if coqRecords(p.Decoded) != first[tpKey(p.Topic, p.Partition)] {
+					fail("wire:resend-differs", tpKey(p.Topic, p.Partition)+": the re-sent batch decodes to other records than the first transmission")
+				}
+			}
+		}
+		desc["resend_same_bytes"] = rs.Same
+	}
 	// handleSuccess on the same set
 	var succTerms []string
 	if mon == nil && nacc > 0 {
